@@ -11,3 +11,6 @@ pub use downgrading_consistency::{
 };
 pub use fallthrough::{FallthroughRetryPolicy, FallthroughRetrySession};
 pub use retry_policy::{RequestInfo, RetryDecision, RetryPolicy, RetrySession};
+#[cfg(scylla_verif)]
+#[allow(missing_docs)]
+pub use retry_policy::verif_hooks as verif_retry;
